@@ -109,6 +109,44 @@ class DuctRecorder:
         RR._calc_duct_temp = rr_calc
         SN._calc_duct_temp = sn_calc
         self._saved = [(RR, o_rr), (SN, o_sn)]
+
+        # entering a region: the wall temperatures the region holds after
+        # its activation are a conduction solution for the coolant that
+        # entered it.  If the activation solved the wall, that solve was
+        # recorded above; if it did not, the stored state itself is judged.
+        o_ract = RR.activate
+        o_sact = SN.activate
+
+        def rr_activate(self, previous_reg, t_gap, h_gap, adiabatic):
+            n0 = len(rec.ev)
+            out = o_ract(self, previous_reg, t_gap, h_gap, adiabatic)
+            if not any(e.get('e') == 'Slab' for e in rec.ev[n0:]):
+                now = {k: np.array(v, copy=True) for k, v in self.temp.items()}
+                rec.rodded_event(
+                    self, now, np.array(self.avg_duct_mw_temp, copy=True),
+                    np.array(self.coolant_int_params['htc'], copy=True),
+                    (np.array(self.coolant_byp_params['htc'], copy=True)
+                     if self.n_bypass > 0 else None), None,
+                    np.array(t_gap, copy=True), np.array(h_gap, copy=True),
+                    rec.truth(adiabatic))
+                rec.ev[-1]['entered'] = 1
+            return out
+
+        def sn_activate(self, previous_reg, t_gap, h_gap, adiabatic):
+            n0 = len(rec.ev)
+            out = o_sact(self, previous_reg, t_gap, h_gap, adiabatic)
+            if not any(e.get('e') == 'Slab' for e in rec.ev[n0:]):
+                now = {k: np.array(v, copy=True) for k, v in self.temp.items()}
+                rec.unrodded_event(
+                    self, now, np.array(self.avg_duct_mw_temp, copy=True),
+                    self.coolant_params.get('htc'),
+                    np.array(t_gap, copy=True), np.array(h_gap, copy=True),
+                    rec.truth(adiabatic))
+                rec.ev[-1]['entered'] = 1
+            return out
+        RR.activate = rr_activate
+        SN.activate = sn_activate
+        self._acts = [(RR, o_ract), (SN, o_sact)]
         return self
 
     def own_bypass_htc(self, reg):
@@ -159,6 +197,8 @@ class DuctRecorder:
     def __exit__(self, *a):
         for cls, f in self._saved:
             cls._calc_duct_temp = f
+        for cls, f in getattr(self, '_acts', []):
+            cls.activate = f
         return False
 
     # ------------------------------------------------------------------
